@@ -3606,6 +3606,10 @@ class BaseInstance(BaseClass):
         clone_of_self = super().clone(default_value=default_value, **metadata)
         if allow_none is not None:
             clone_of_self._allow_none = allow_none
+            # The compiled validator encodes the None policy: keep it in step
+            # (a class given by name gets its validator when it is resolved).
+            if not isinstance(clone_of_self.klass, str):
+                clone_of_self.init_fast_validate()
         return clone_of_self
 
     def create_editor(self):
